@@ -3,7 +3,7 @@
 
 use crate::exec::{Call, HCall, Ret, World};
 use crate::model::{diff, Abs, Tokens};
-use crate::product::{record_trace, Opts};
+use crate::product::Opts;
 use serde_json::{json, Value};
 use std::collections::BTreeMap;
 use std::io::{BufRead, BufReader};
@@ -60,6 +60,7 @@ pub fn run(paths: &[PathBuf], tk: &Tokens, o: &Opts, stride: usize, offset: usiz
             w.labels = labels.clone();
             let mut calls: Vec<HCall> = vec![];
             let mut sig: Option<String> = None;
+            let mut mirror_from: Option<usize> = None;
             for c in &gcalls {
                 calls.push(c.clone());
                 if w.exec(c).is_panic() {
@@ -86,6 +87,14 @@ pub fn run(paths: &[PathBuf], tk: &Tokens, o: &Opts, stride: usize, offset: usiz
                     }
                     _ => sig = Some("prefix:broken".into()),
                 }
+            }
+            // the twin: a copy of the left graph that will receive, as plain API calls, what the merge amounts to (the model's log)
+            if sig.is_none() {
+                let cl = HCall { h: 0, call: Call::Clone { dst: 2 } };
+                calls.push(cl.clone());
+                w.exec(&cl);
+                let pr = HCall { h: 2, call: Call::Mark { what: "pair".into(), of: 0, kind: "C11".into() } };
+                calls.push(pr);
             }
             let exp_ok = v["ok"].as_bool().unwrap();
             *stats.entry(if exp_ok { "complete" } else { "incomplete" }).or_default() += 1;
@@ -130,14 +139,59 @@ pub fn run(paths: &[PathBuf], tk: &Tokens, o: &Opts, stride: usize, offset: usiz
                         Err(_) => d.push("broken"),
                     }
                 }
+                // the same additions through add/bind/put/next_id on the twin
+                let mut twin_ok = !ret.is_panic() && w.gs.get(2).map(|x| x.is_some()).unwrap_or(false);
+                let mut idmap: std::collections::HashMap<u64, usize> = std::collections::HashMap::new();
+                let mut api_calls: Vec<HCall> = vec![];
+                if twin_ok {
+                    for c in v["log"].as_array().unwrap() {
+                        let m = |idmap: &std::collections::HashMap<u64, usize>, x: &Value| -> usize { let k = x.as_u64().unwrap(); idmap.get(&k).copied().unwrap_or(k as usize) };
+                        let call = match c["op"].as_str().unwrap() {
+                            "put" => Call::Put { v: m(&idmap, &c["v"]), d: tk.val(c["d"].as_str().unwrap()) },
+                            "add" => Call::Add { v: m(&idmap, &c["v"]) },
+                            "bind" => Call::Bind { v1: m(&idmap, &c["v1"]), v2: m(&idmap, &c["v2"]), a: tk.label(c["a"].as_str().unwrap()) },
+                            "next_id" => Call::NextId,
+                            x => panic!("bad log op {x}"),
+                        };
+                        let hc = HCall { h: 2, call };
+                        api_calls.push(hc.clone());
+                        match w.exec(&hc) {
+                            Ret::Id(i) => {
+                                idmap.insert(c["ret"].as_u64().unwrap(), i);
+                            }
+                            Ret::Panic(_) => {
+                                twin_ok = false;
+                                break;
+                            }
+                            _ => {}
+                        }
+                    }
+                }
+                let cmp = HCall { h: 2, call: Call::Mark { what: "compare".into(), of: 0, kind: "C11".into() } };
+                if twin_ok && exp_ok && d.is_empty() && w.g(0).snap() != w.g(2).snap() {
+                    d.push("differs-from-api-calls");
+                }
                 if !d.is_empty() {
                     sig = Some(format!("merge:{}", d.join("+")));
+                    calls.extend(api_calls.clone());
+                    calls.push(cmp.clone());
+                    if d.contains(&"differs-from-api-calls") {
+                        // hidden state differs: read every vertex on both, side by side, so that it shows (or does not)
+                        if let Some(order) = v["reads"].as_array().and_then(|a| a.first()) {
+                            for step in order.as_array().unwrap() {
+                                let vtx = step["v"].as_u64().unwrap() as usize;
+                                calls.push(HCall { h: 0, call: Call::Data { v: vtx } });
+                                calls.push(HCall { h: 2, call: Call::Data { v: vtx } });
+                                mirror_from.get_or_insert(calls.len());
+                            }
+                        }
+                    }
                 } else if exp_ok {
                     // reads afterwards, both orders, each on a rebuilt copy
                     for (ri, order) in v["reads"].as_array().unwrap().iter().enumerate() {
                         let mut w2 = World::new(o.n, o.cap, o.scratch.clone());
                         w2.labels = labels.clone();
-                        for c in &calls {
+                        for c in calls.iter().chain(api_calls.iter()) {
                             w2.exec(c);
                         }
                         let mut rcalls = vec![];
@@ -165,7 +219,16 @@ pub fn run(paths: &[PathBuf], tk: &Tokens, o: &Opts, stride: usize, offset: usiz
                         }
                         if bad {
                             sig = Some(format!("reads:{ri}"));
-                            calls.extend(rcalls);
+                            calls.extend(api_calls.clone());
+                            calls.push(cmp.clone());
+                            // the reads side by side: merged graph, then (mirrored) the twin
+                            for c in rcalls {
+                                calls.push(c.clone());
+                                let mut c2 = c.clone();
+                                c2.h = 2;
+                                calls.push(c2);
+                                mirror_from.get_or_insert(calls.len());
+                            }
                             break;
                         }
                     }
@@ -178,10 +241,13 @@ pub fn run(paths: &[PathBuf], tk: &Tokens, o: &Opts, stride: usize, offset: usiz
                 let seen = witnesses.iter().filter(|x| x["sig"] == json!(sig)).count();
                 if seen < o.max_witness_per_sig && witnesses.len() < o.max_witnesses {
                     if let Some(f) = wfile.as_mut() {
-                        record_trace(f, tid, o, &labels, &calls);
+                        // every second call from `mirror_from` on is the twin's mirrored read
+                        let mirror: Vec<bool> = (0..calls.len()).map(|i| mirror_from.map(|m| i + 1 >= m && (i + 1 - m) % 2 == 0).unwrap_or(false)).collect();
+                        crate::product::record_trace_m(f, tid, o, &labels, &calls, &mirror);
                     }
+                    let mirror: Vec<bool> = (0..calls.len()).map(|i| mirror_from.map(|m| i + 1 >= m && (i + 1 - m) % 2 == 0).unwrap_or(false)).collect();
                     witnesses.push(json!({"t": tid, "sig": sig, "n": o.n, "cap": o.cap,
-                        "calls": calls.iter().map(|c| c.to_json()).collect::<Vec<_>>()}));
+                        "calls": calls.iter().zip(mirror.iter()).map(|(c, m)| { let mut j = c.to_json(); if *m { j["mirror"] = json!(true); } j }).collect::<Vec<_>>()}));
                     tid += 1;
                 }
             } else if samples.len() < 2 && executed % 977 == 1 {
